@@ -103,6 +103,7 @@ def emit(out: R.Outcome, write=True):
         print(f"  {i.where()}: {i.rule} [{i.key}] {i.msg}")
         if i.construct:
             print(f"      construct: {i.construct[:200]}")
+        print(f"      fid: {i.fid()}")
         print(f"VIOLATION property={pid} replay={p}")
     if out.selftest is not None:
         st = out.selftest
